@@ -56,7 +56,7 @@ class Ctx:
         self._added = (0, 0, 0)
         self._base = (0, 0)
         self._decided = {}
-        self.decide_timeout_ms = 4000
+        self.decide_timeout_ms = 10000
         self.symcount = 0
         self.symbols = {}       # name -> z3 const
         self.log = []
